@@ -59,6 +59,10 @@ VERIF_HARNESS(c07_s1_response) {
   node = ne_make_node(&ne_sess, ne_make_pdu(COAP_MESSAGE_CON, 1, req_mid_other, tok, 4), 2000, 1);
 #elif NODE == 3
   node = ne_make_node(&ne_sess, ne_make_pdu(COAP_MESSAGE_CON, 1, req_mid_other, tok2, 4), 2000, 0);
+#elif NODE == 4
+  /* an unrelated request of ours whose message id happens to EQUAL the id the peer chose for its message (the two endpoints number
+   * their messages independently), with another token */
+  node = ne_make_node(&ne_sess, ne_make_pdu(COAP_MESSAGE_CON, 1, mid, tok2, 4), 2000, 0);
 #endif
   if (node) {
     node->t = 2000;
@@ -104,6 +108,14 @@ VERIF_HARNESS(c07_s1_response) {
 #endif
 #elif NODE == 3
   VERIF_ASSERT(ne_in_queue(ne_ctx.sendqueue, node) && ne_deadline(node) == now + 2000, "S1 an unrelated queued request is untouched");
+#elif NODE == 4
+#if RTYPE == T_ACK
+  /* an ACK does refer to OUR message id: a piggybacked response with a foreign token still acknowledges the message */
+  VERIF_ASSERT(!ne_in_queue(ne_ctx.sendqueue, node), "S1 an ACK with the request's message id stops its retransmission");
+#else
+  VERIF_ASSERT(ne_in_queue(ne_ctx.sendqueue, node) && ne_deadline(node) == now + 2000 && ne_sess.con_active == 1,
+               "S1 a CON/NON message from the peer never stops an unrelated request of ours that merely has the same message id (own id space, other token)");
+#endif
 #endif
 #else
   /* empty ACK / RST */
